@@ -155,7 +155,11 @@ def cl_transform_pair(n, k):
         return False, 'func/abel are not profile%d(r)' % k
     if T.label != 'profile%d' % k or not np.all(np.asarray(T.mask_valid) == 1):
         return False, 'label/mask_valid'
-    idx = np.unique(np.linspace(0, n - 1, min(n, 9)).astype(int))
+    idx = list(np.linspace(0, n - 1, min(n, 9)).astype(int))
+    for b in (0.25, 0.5, 0.7):          # samples on (or nearest to) the branch points of the piecewise profiles
+        j = int(np.argmin(np.abs(r - b)))
+        idx += [j, max(j - 1, 0), min(j + 1, n - 1)]
+    idx = np.unique(idx)
     ref = np.array([_profile_ref(k, r[i]) for i in idx])
     d = np.abs(T.abel[idx] - ref)
     if np.any(d > RTOL_EXACT * 2.0):
